@@ -878,3 +878,4 @@ canary('c18-notice-try-send', 'C18', 'crates/edp_node/src/process.rs', """      
                 from: handle.pid.clone(),
                 reason: reason.clone(),
             });""", 'lossy-delivery')
+benign('benign-c11-helper-relayout', 'C11', 'crates/erltf/src/term.rs', "        result |= (byte as u64) << (i * 8);", "        let shifted = (byte as u64) << (i * 8);\n        result |= shifted;")
